@@ -77,6 +77,19 @@ Theorem C14_reader_bounded :
 Proof. exact reader_bounded. Qed.
 Print Assumptions C14_reader_bounded.
 
+(* what the normal form of a header means, key by key *)
+Theorem C14_norm_hdr_lookup : forall h body K,
+  hvals (norm_hdr h body) K =
+  map (fun e => join_vals (snd e))
+      (filter (fun e => bytes_eqb (canon_key (fst e)) K) (hsort (set_cl h body))).
+Proof. exact norm_hdr_lookup. Qed.
+Print Assumptions C14_norm_hdr_lookup.
+
+(* the model of pion's RTP header parser never stops for lack of fuel on a byte string *)
+Theorem C14_rtp_hdr_check_no_fuel : forall d, all_bytes d = true -> rtp_hdr_check d <> HFuel.
+Proof. exact rtp_hdr_check_no_fuel. Qed.
+Print Assumptions C14_rtp_hdr_check_no_fuel.
+
 (* the oracle applied to the implementation accepts the model: written streams ... *)
 Theorem C14_model_passes : forall cfg items tail slack,
   0 <= slack ->
